@@ -185,6 +185,33 @@ example : ∃ Q, (⟨4, fun i => i * i, -1/2, 10⟩ : Part1).getSlice (some 1) (
   · rw [hb 0 (by decide)]; norm_num [Part1.bdry]
   · rw [hb 2 (by decide)]; norm_num [Part1.bdry]
 
+/-- `partition[:]`, `partition[...]` (every axis gets `slice(None)`): the axis is returned
+unchanged. -/
+theorem C14.getitem_full (P : Part1) (hv : Valid P) : P.getSlice none none none = some P :=
+  getSlice_full P hv
+
+/-- The excluded degenerate state (one node, `lo = hi`) is handled too: its only point has
+index `0` (floating `0.0`). -/
+theorem C14.index_degenerate (P : Part1) (hv : Valid P) (hn : P.n = 1) (hd : P.lo = P.hi) :
+    P.index P.lo = some 0 ∧ P.indexFloat P.lo = some 0 :=
+  OdlModel.Partition.index_degenerate P hv hn hd
+
+/-- `squeeze()` keeps exactly the axes with more than one node, in order, each unchanged. -/
+theorem C14.squeeze_cells (P : Part) :
+    squeeze P none = some (P.filter fun p => decide (1 < p.n)) :=
+  squeeze_all P
+
+/-- `nonuniform_partition(coords, nodes_on_bdry=(bl, br))` without explicit limits, any strictly
+increasing coordinate vector with `n ≥ 2`: the result is valid, has the given nodes, each
+requested side has its node on the boundary (fraction `1/2`), each other side gets the natural
+half-stride margin (fraction `1`). -/
+theorem C14.nonuniform_limits (n : Nat) (c : Nat → Rat) (hn : 2 ≤ n)
+    (hm : ∀ i, i + 1 < n → c i < c (i + 1)) (bl br : Bool) :
+    ∃ P, nonuniformAxis n c none none bl br = some P ∧ Valid P ∧ P.n = n ∧ P.c = c ∧
+      P.bdryFrac = (if bl then 1 / 2 else 1, if br then 1 / 2 else 1) ∧
+      P.nodesOnBdry Tol.exact = (bl, br) :=
+  nonuniform_default n c hn hm bl br
+
 /-- `insert(index, p1, …, pk)` puts the axes of the inserted partitions, in order, as one block
 before axis `index` and leaves all axes (their cells) unchanged; negative `index` counts from
 `ndim`; `append` inserts at the end. -/
